@@ -1339,7 +1339,11 @@ pub fn random_walk(rng: &mut StdRng, p: &Profile, t: Trace) -> (Trace, usize, Ve
     let cfg = Config {
         flavor: p.flavor.to_string(),
         buf_cap: rng.gen_range(p.buf_cap.0..=p.buf_cap.1),
-        max_cost: rng.gen_range(p.max_cost.0..=p.max_cost.1),
+        // a range that starts below zero stands for "negative bounds too" (the builder refuses only zero)
+        max_cost: match rng.gen_range(p.max_cost.0..=p.max_cost.1) {
+            0 => -1,
+            m => m,
+        },
         num_counters: p.num_counters[rng.gen_range(0..p.num_counters.len())],
         buffer_items: p.buffer_items[rng.gen_range(0..p.buffer_items.len())],
         ignore_internal: p.ignore_internal,
@@ -1552,7 +1556,7 @@ pub fn profile(name: &str, flavor: &'static str) -> Profile {
             buffer_items: vec![0, 1, 2, 64],
             num_counters: (1..=70).collect(),
             metrics_off_sometimes: true,
-            max_cost: (1, 8),
+            max_cost: (-1, 8),
             buf_cap: (1, 2),
             ..base
         },
